@@ -41,6 +41,7 @@ type Config struct {
 	MergeFuncs  map[string]bool
 	OneShotAsserts bool // decide assertions with fresh non-incremental solver processes (z3 and cvc5 side by side)
 	MonotoneRounding bool // rerr mode: add p<=q => fl(p)<=fl(q) for all pairs of rounded operations
+	IntInputsAsReal bool // real modes: verifU8/U16 inputs are integers carried as reals
 	UFTables    bool // abstract large tables at symbolic indices as uninterpreted functions
 }
 
@@ -113,6 +114,8 @@ type Exec struct {
 	ifConverted int
 	specCond    *Term
 	roundings   []roundingSite
+	scopes      []int
+	defs        []*Term
 	ufTables    map[*Value]*ufTable
 	ufOrder     []*ufTable
 	ufFacts     []*Term
@@ -252,6 +255,14 @@ func (e *Exec) assume(c *Term) {
 			e.known[a.ID] = true
 		}
 	}
+}
+
+// assumeDef adds a definitional constraint on fresh variables (rounding-error
+// bounds, division and truncation witnesses). Such constraints are satisfiable
+// whatever the path, so they survive the merging of a call's sub-paths.
+func (e *Exec) assumeDef(c *Term) {
+	e.defs = append(e.defs, c)
+	e.assume(c)
 }
 
 // Decide picks a branch for condition c, forking when both sides are feasible.
